@@ -63,7 +63,7 @@ class ClassGen:
     pack_args / unpack_args   extra canonical arguments for pack / unpack
     """
     def __init__(self, cls, valid, opts=((),), length_fields=(), alt=None, eq_fields=None, has_eq=True,
-                 pack_args=(), unpack_args=(), can_pack=True, can_unpack=True, groups=()):
+                 pack_args=(), unpack_args=(), can_pack=True, can_unpack=True, groups=(), extra_twins=None):
         self.cls, self.valid, self.opts = cls, valid, [tuple(o) for o in opts]
         self.length_fields, self.alt, self.eq_fields, self.has_eq = list(length_fields), alt, eq_fields, has_eq
         self.pack_args, self.unpack_args = tuple(pack_args), tuple(unpack_args)
@@ -71,6 +71,8 @@ class ClassGen:
         # groups of fields that only mean something together (e.g. the three optional-header fields of a PES
         # packet): twins are also built that differ in a whole group at once, both ways round
         self.groups = [tuple(g) for g in groups]
+        # extra_twins(rng) -> [(fields_a, fields_b, label)]: directed pairs that differ in several fields at once
+        self.extra_twins = extra_twins
 
     def pack_op(self):
         return " ".join(("pack",) + self.pack_args)
